@@ -102,9 +102,8 @@ def allowed_single_step(x):
         val = unquote(m.group(2))
         out.add(val)                        # absolute target
         if val.startswith("/"):
-            # "joined to the input": to the string as given, or to it without the whitespace / control characters *around* it (they are no part
-            # of the URL; which of the two is the library's choice)
-            for base in {x, _AROUND.sub("", x)}:
+            # "joined to the input": to the URL without the whitespace / control characters *around* it (they are no part of the URL)
+            for base in {_AROUND.sub("", x)}:      # (joining to the untrimmed string loses the host of a URL that has junk in front of its protocol: that is no join "to the input")
                 try:
                     if _PROTO.match(re.sub(r"[\x00-\x1f\x7f-\x9f]", "", x).strip()):   # protocol of the cleaned input (control characters, surrounding whitespace)
                         out.add(urljoin(base, val))    # relative target: joined to the input, nothing else
@@ -279,6 +278,9 @@ for _q in ["q=HTTP%3A%2F%2Fa.fr", "q=Https%3A%2F%2Fa.fr%2Fx", "q=http%3A%2F%2Fa"
         YOUTUBE_URLS.append(_h + _q)
 
 
+# whitespace (ASCII and not) / control characters around a URL that redirects to a relative target
+JUNK_URLS = [pad + u + tail for pad in [" ", "\t", "\u00a0", "\u2003", "\u3000", "\u2028", "\u205f", "\x00", "\x1f", "\x7f", "\x9f", "\u00a0 \x00"]
+             for u in ["http://h.com/login?next=/x", "https://h.com/r?u=%2Fhome%3Fa%3D1", "h.com/r?l=/?u=%2Fx", "//h.com/?goto=/a/b"] for tail in ["", " ", "\u2003"]]
 UNPARSEABLE_REDIRECTS = ["http://[x/?u=/p", "http://a]b.com/?url=/x", "http://[::1/?next=%2Fy", "[?u=/p", "http://h/?u=http://[x/", "//[?l=/z#["]
 
 
@@ -306,6 +308,9 @@ def _panel(acc, shard, nshards, seed, tier):
             continue
         case = {"kind": "redirect", "s": s}
         acc.check(case, _nt(case), ["cache" if i < len(CACHE_URLS) else "youtube-google"])
+    for i, s in enumerate(JUNK_URLS):
+        if i % nshards == shard:
+            acc.check({"kind": "redirect", "s": s}, True, ["junk-around-url"])
 
 
 def _strategy(tier):
